@@ -499,7 +499,7 @@ pub fn run(cfg: &BCfg, run_seed: u64, replay: Option<Vec<u32>>, trace: bool, san
         chrony: Some(Box::new(Chronyd(world.clone()))),
         rt_off: Some(Box::new(move |m| w2.lock().unwrap_or_else(|e| e.into_inner()).rt_off(m))),
         procs,
-        watchdog: std::time::Duration::from_secs(120),
+        watchdog: std::time::Duration::from_secs(30),
     });
     let mut s = st.lock().unwrap();
     if !s.ended {
